@@ -73,7 +73,9 @@ PROPS = {
                 "not yet valid, on each endpoint through each carrier); for every draw a valid token (exp/nbf offsets 0, +-2 s, +-1 h) issued for one of the two roles and one mutation among: "
                 "alg none (with/without signature), lower-case alg, HMAC keyed with the public PEM / a guessed secret, correctly signed with another family's key, "
                 "truncated / empty / padded / std-alphabet signature, 2 or 4 segments, doubled separator, swapped segments, re-encoded payload, one base64 character "
-                "flipped in each segment; sent to the publish, subscribe or subscription-API endpoint. An independent verifier (Go crypto/* and encoding/base64 directly, "
+                "flipped in each segment; one draw in five carries a mercure claim of a shape the claims structure cannot hold (list, string, number, true, publish as a string, "
+                "subscribe as an object, a number among the selectors), correctly signed half of the time: its payload does not decode, so it is invalid whatever its signature; "
+                "sent to the publish, subscribe or subscription-API endpoint. An independent verifier (Go crypto/* and encoding/base64 directly, "
                 "no golang-jwt) supplies the primitives' results; the Coq pipeline and the spec predicate are evaluated on them and compared with the hub's status. "
                 "non-trivial = mutated token, or a token issued for the other role",
         "trusted": ["cryptographic primitives (Go crypto/*), base64 and JSON decoders: oracles; golang-jwt's parsing is exercised, not modelled beyond its order of checks",
@@ -126,8 +128,11 @@ PROPS = {
     "C17": {"stages": [SUBEV_STAGE, HUB_STAGE], "rule": SUBEV_RULE + " hub-histories: " + HUB_RULE, "trusted": HUB_TRUST + ["encoding/json document layout"],
             "assumptions": ["the hub is not closed while events are due (a closed transport refuses the dispatch of the event itself)"]},
     "C01": {"binaries": ["verifh", "verifs"],
-            "stages": [HUB_STAGE, TRANS_STAGE, SUBEV_STAGE, {"kind": "cases", "name": "index", "driver": "C05", "n": {"quick": 800, "thorough": 10000}}],
-            "rule": HUB_RULE + TRANS_RULE + " index: the operation histories of C05 against the real SubscriberList (private bit, claims, topics with the delimiter / escape characters): "
+            "stages": [HUB_STAGE, TRANS_STAGE, SUBEV_STAGE, {"kind": "cases", "name": "index", "driver": "C05", "n": {"quick": 800, "thorough": 10000}},
+                       {"kind": "cases", "name": "private-shared-ids", "driver": "PRIVID", "n": {"quick": 60, "thorough": 600}}],
+            "rule": HUB_RULE + TRANS_RULE + " private-shared-ids: 2-9 publishes, private or public, with topics [t] or [t, u], whose ids are drawn from a pool of three and repeat the previous "
+                    "one half of the time (so private and public updates share ids), payloads distinct; three subscribers to t (anonymous, token covering u only, token covering t), live and (Bolt) "
+                    "replaying from 'earliest': each stream must carry exactly the payloads its subscriber may receive (the models identify an update by its id: this stage covers what that hides). index: the operation histories of C05 against the real SubscriberList (private bit, claims, topics with the delimiter / escape characters): "
                     "who is handed a private update is decided there." + SUBEV_RULE, "trusted": HUB_TRUST + ["matching itself: C05/C11; token verification: C03"], "assumptions": []},
     "C06": {"binaries": ["verifh", "verifs", "verifr"],
             "stages": [TRANS_STAGE, SUB_STAGES[1], HUB_STAGE, {"kind": "cases", "name": "shared-ids", "driver": "DUPID", "n": {"quick": 60, "thorough": 600}}, RACE_STAGE],
